@@ -498,7 +498,9 @@ class BaseMultipartText(BaseText):
                 continue
             for item in split_part[:-1]:
                 if tail:
-                    yield self._create_similar(tail + [item])
+                    tail_text = self._create_similar(tail + [item])
+                    if tail_text or keep_empty_parts:
+                        yield tail_text
                     tail = []
                 else:
                     if item or keep_empty_parts:
